@@ -19,6 +19,7 @@ the same kernel on `np.ma.concatenate` of the partials      `maRed op e` = `maCh
 `mean_chunk` on a masked block: `total = sum(x)`,           `maMeanChunk` = (`maChunk (+) 0` of the block, `maChunk (+) 0` of the ones
    `n = _numel_masked(x) = sum(np.ones_like(x))`               with the block's mask): BOTH are masked for an all-masked block
 `mean_combine`                                              `maMeanComb` (component-wise `maRed (+) 0`)
+`_average(a, weights=w, is_masked=True)`                    `wgtMasked` (`w * ~getmaskarray(a)`), `wprod` (`multiply(a, wgt)`), `wsumUnmasked`
 `moment_chunk` on a masked block                            `Moment.momChunk` of the unmasked values (`unmaskedRat`); an all-masked
                                                               block gives total = n = M = masked with 0 underneath = `momChunk []`
 a whole masked array (`mask` possibly `nomask`)             `MArr` (`data`, `mask : Option (List Bool)`, `none` = `nomask`)
@@ -95,6 +96,18 @@ def maMeanComb (ps : List (Masked Int × Masked Int)) : Masked Int × Masked Int
 
 def maMeanTree (k depth : Nat) (bs : List (MBlock Int)) : List (Masked Int × Masked Int) :=
   treeReduce maMeanComb maMeanComb k depth (bs.map fun b => maMeanChunk b.nomask b.elems)
+
+/-! ### `da.ma.average(a, weights=w)` (`routines._average(is_masked=True)`): `wgt = w * ~getmaskarray(a)`,
+    `scl = wgt.sum()`, `avg = multiply(a, wgt).sum() / scl` -/
+def wgtMasked (ws : List Int) (xs : List (Masked Int)) : List Int :=
+  List.zipWith (fun w x => if x.mask then 0 else w) ws xs
+
+def wprod (ws : List Int) (xs : List (Masked Int)) : List (Masked Int) :=
+  List.zipWith (fun w x => ⟨x.data * (if x.mask then 0 else w), x.mask⟩) ws xs
+
+/-- the weighted sum of the unmasked values -/
+def wsumUnmasked (ws : List Int) (xs : List (Masked Int)) : Int :=
+  isum (List.zipWith (fun w x => if x.mask then 0 else x.data * w) ws xs)
 
 /-! ### var: the order-2 moment partial of a masked block is the partial of its unmasked values -/
 def unmaskedRat (xs : List (Masked Int)) : List Rat := (unmasked xs).map fun (v : Int) => (v : Rat)
